@@ -220,6 +220,16 @@ def generate(rng, tier):
                   "edits": [{"path": [], "op": "meta", "val": {"k": 2}}]})
     cases.append({"src": {"cls": "ContainerGroup", "name": "selfcopy", "children": [obj_spec(rng, "Points", rich=False)]}, "target": "self",
                   "opts": {"copy_children": True, "clear_cache": False, "mask": None, "omit_meta": False, "name": None}, "prefill": False, "edits": []})
+    # drillhole groups (Concatenator.copy): copy, edit the COPY, read the SOURCE for the first time afterwards, re-open both
+    for target in ("ws", "group"):
+        for edit in ("replace", "replace_longer", "remove", "add", "rename", "removehole", "none"):
+            for which in (0, 1):
+                cases.append({"dh": {"holes": [4, 6, 3], "target": target, "edit": edit, "which": which, "cls": "DrillholeGroup"}})
+    cases.append({"dh": {"holes": [2, 5], "target": "ws", "edit": "replace", "which": 0, "cls": "IntegratorDrillholeGroup"}})
+    for _ in range(6 if tier == "quick" else 200):
+        cases.append({"dh": {"holes": [rng.range(1, 6) for _ in range(rng.range(2, 4))], "target": rng.choice(["ws", "ws", "group"]),
+                             "edit": rng.choice(["replace", "replace", "replace_longer", "remove", "add", "rename", "removehole"]),
+                             "which": rng.below(2), "cls": "DrillholeGroup"}})
     n = 140 if tier == "quick" else 5000
     for _ in range(n):
         shape = rng.weighted([("object", 45), ("group", 35), ("data", 20)])
@@ -420,6 +430,130 @@ def _apply_edit(e, ed):
     return "ok"
 
 
+def _dh_read(group):
+    """{hole name: {data name: values}} through the API (first read in this session unless read before)"""
+    import numpy as np
+    from geoh5py.objects import Drillhole
+
+    out = {}
+    for h in group.children:
+        if isinstance(h, Drillhole):
+            rec = {}
+            for nm in ("assay", "au", "extra"):
+                dd = h.get_data(nm)
+                if dd and dd[0] is not None:
+                    v = dd[0].values
+                    rec[nm] = None if v is None else [S.num(x) for x in np.asarray(v, dtype=float).tolist()]
+            out[h.name] = rec
+    return out
+
+
+def drive_dh(case, work):
+    """drillhole group: copy, edit the copy, then read the source (live, first read of the session) and both files"""
+    import os
+
+    import numpy as np
+    from geoh5py import Workspace
+    from geoh5py import groups as G
+    from geoh5py.objects import Drillhole
+
+    spec = case["dh"]
+    pa, pb = f"{work}/c12dha.geoh5", f"{work}/c12dhb.geoh5"
+    for p in (pa, pb):
+        if os.path.exists(p):
+            os.remove(p)
+    obs = {"dh": True}
+
+    def attempt(tag, fn):
+        try:
+            obs[tag] = fn()
+        except Exception as e:  # noqa: BLE001
+            obs[tag] = {"raised": type(e).__name__, "msg": str(e)[:160]}
+
+    try:
+        with Workspace.create(pa) as wa:
+            g = getattr(G, spec["cls"]).create(wa, name="DH")
+            for i, n in enumerate(spec["holes"]):
+                off = 100.0 * (i + 1)
+                h = Drillhole.create(wa, name="h%d" % i, parent=g, collar=np.r_[off, 0.0, 10.0],
+                                     surveys=np.c_[np.linspace(0, 100, 5), np.ones(5) * 45.0, np.linspace(-89, -75, 5)])
+                ft = np.c_[np.arange(n), np.arange(n) + 1.0]
+                h.add_data({"assay": {"values": off + np.arange(n, dtype=float), "from-to": ft},
+                            "au": {"values": 2 * off + np.arange(n, dtype=float), "from-to": ft}})
+            obs["reference"] = _dh_read(g)
+            guid = g.uid
+        wa = Workspace(pa)
+        wb = Workspace.create(pb)
+        try:
+            g = wa.get_entity(guid)[0]
+            if spec["target"] == "ws":
+                tws, parent = wb, wb
+            else:
+                tws, parent = wa, G.ContainerGroup.create(wa, name="tgt")
+            try:
+                c = g.copy(parent=parent)
+                obs["copy_error"] = None
+            except Exception as e:  # noqa: BLE001
+                obs["copy_error"] = type(e).__name__ + ": " + str(e)[:160]
+                c = None
+            if c is not None:
+                obs["copy_cls"] = type(c).__name__
+                cuid = c.uid
+                attempt("copy_read", lambda: _dh_read(c))
+                k = min(spec["which"], len(spec["holes"]) - 1)
+                n = spec["holes"][k]
+
+                def edit():
+                    hole = [x for x in c.children if x.name == "h%d" % k][0]
+                    e = spec["edit"]
+                    if e == "replace":
+                        hole.get_data("assay")[0].values = -1.0 - np.arange(n, dtype=float)
+                    elif e == "replace_longer":
+                        tws.remove_entity(hole.get_data("assay")[0])
+                        ft = np.c_[np.arange(n + 2), np.arange(n + 2) + 1.0]
+                        hole.add_data({"assay": {"values": -1.0 - np.arange(n + 2, dtype=float), "from-to": ft}})
+                    elif e == "remove":
+                        tws.remove_entity(hole.get_data("assay")[0])
+                    elif e == "add":
+                        hole.add_data({"extra": {"values": np.array([9.0, 8.0]), "from-to": np.array([[0.0, 1.0], [1.0, 2.0]])}})
+                    elif e == "rename":
+                        hole.name = "renamed"
+                    elif e == "removehole":
+                        tws.remove_entity(hole)
+                    return "ok"
+                attempt("edit", edit)
+                attempt("copy_after", lambda: _dh_read(c))
+            # the source: first read of this session
+            attempt("src_live", lambda: _dh_read(g))
+            # ordinary follow-up work on the source
+            last = len(spec["holes"]) - 1
+
+            def follow():
+                hole = [x for x in g.children if x.name == "h%d" % last][0]
+                hole.get_data("assay")[0].values = 7.0 + np.arange(spec["holes"][last], dtype=float)
+                return "ok"
+            attempt("follow_up", follow)
+        finally:
+            for w in (wa, wb):
+                try:
+                    w.close()
+                except Exception:  # noqa: BLE001
+                    pass
+
+        def reread(path, uid):
+            with Workspace(path) as w:
+                e = w.get_entity(uid)[0]
+                return None if e is None else _dh_read(e)
+        attempt("src_file", lambda: reread(pa, guid))
+        if c is not None:
+            attempt("copy_file", lambda: reread(pb if spec["target"] == "ws" else pa, cuid))
+    finally:
+        for p in (pa, pb):
+            if os.path.exists(p):
+                os.remove(p)
+    return obs
+
+
 def drive_one(case, work):
     import os
     import warnings
@@ -432,6 +566,8 @@ def drive_one(case, work):
     warnings.simplefilter("ignore")
     if case.get("inventory"):
         return {"inventory": S.inventory()}
+    if "dh" in case:
+        return drive_dh(case, work)
     pa, pb = f"{work}/c12a.geoh5", f"{work}/c12b.geoh5"
     for p in (pa, pb):
         if os.path.exists(p):
@@ -762,7 +898,7 @@ ERRMAP = {"NotCopied": "ENotCopied", "ValueError": "EMaskShape", "RecursionError
 
 
 def case_term(case, obs):
-    if case.get("inventory") or "src_reloaded" not in obs or obs.get("wsA") is None:
+    if case.get("inventory") or "dh" in case or "src_reloaded" not in obs or obs.get("wsA") is None:
         return None
     return _case_term_general(case, obs)
 
@@ -1078,10 +1214,62 @@ def _drop_ids(n):
     return m
 
 
+STRUCTURAL = ("replace_longer", "remove", "add", "rename", "removehole")
+
+
+def oracle_dh(case, obs):
+    """drillhole group: the copy reproduces every hole with its data; the source (live, first read after the copy was edited,
+    and its file after ordinary follow-up work) is what it was; the copy's file holds the edited copy."""
+    fails = []
+    spec = case["dh"]
+    ref = obs.get("reference") or {}
+    if obs.get("copy_error"):
+        return [{"key": "dh-copy-refused", "what": f"copy of {spec['cls']} raised {obs['copy_error']}"}]
+    cross = spec["target"] == "ws"
+    shared_known = cross and spec["edit"] in STRUCTURAL   # the cross-workspace fast path shares the attribute records (open finding)
+
+    def bad(tag):
+        v = obs.get(tag)
+        return isinstance(v, dict) and "raised" in v
+    if obs.get("copy_cls") != "Concatenator" + spec["cls"] and obs.get("copy_cls") != spec["cls"]:
+        fails.append({"key": "copy-class-differs", "what": f"{spec['cls']} copied as {obs.get('copy_cls')}"})
+    if bad("copy_read") or obs.get("copy_read") != ref:
+        fails.append({"key": "dh-copy-differs", "what": f"the copy does not reproduce the holes and their data: {str(obs.get('copy_read'))[:200]}"})
+    if bad("edit"):
+        fails.append({"key": "dh-shared-attribute-records" if shared_known else "dh-copy-edit-refused",
+                      "what": f"edit '{spec['edit']}' of the copy raised {obs['edit']}"})
+    k = min(spec["which"], len(spec["holes"]) - 1)
+    # the source, read after the copy was edited
+    if bad("src_live") or obs.get("src_live") != ref:
+        key = "dh-shared-attribute-records" if shared_known else "dh-copy-edit-changes-source"
+        fails.append({"key": key, "what": f"after edit '{spec['edit']}' of the copy (hole {k}) the source reads {str(obs.get('src_live'))[:240]}"})
+    last = "h%d" % (len(spec["holes"]) - 1)
+    exp_src = json.loads(json.dumps(ref))
+    if obs.get("follow_up") == "ok" and last in exp_src:
+        exp_src[last]["assay"] = [7 + i for i in range(spec["holes"][-1])]
+    elif bad("follow_up"):
+        fails.append({"key": "dh-shared-attribute-records" if shared_known else "dh-source-edit-refused-after-copy",
+                      "what": f"editing the source after the copy raised {obs['follow_up']}"})
+    if bad("src_file") or obs.get("src_file") != exp_src:
+        key = "dh-shared-attribute-records" if shared_known else "dh-source-file-changed"
+        fails.append({"key": key, "what": f"after edit '{spec['edit']}' of the copy the source file holds {str(obs.get('src_file'))[:240]}"})
+    if not bad("edit") and not bad("copy_after") and (bad("copy_file") or obs.get("copy_file") != obs.get("copy_after")):
+        key = "dh-shared-attribute-records" if shared_known else "dh-copy-file-differs"
+        fails.append({"key": key, "what": f"the copy's file {str(obs.get('copy_file'))[:160]} differs from the live copy {str(obs.get('copy_after'))[:160]}"})
+    seen, out = set(), []
+    for f in fails:
+        if f["key"] not in seen:
+            seen.add(f["key"])
+            out.append(f)
+    return out
+
+
 def oracle(case, obs):
     fails = []
     if "crash" in obs:
         return [{"key": "driver-crash", "what": str(obs["crash"])[:300] + " " + str(obs.get("tb", ""))[-300:]}]
+    if "dh" in case:
+        return oracle_dh(case, obs)
     if case.get("inventory"):
         inv = obs["inventory"]
         missing = (set(inv["objects"]) - set(S.ALL_OBJECTS)) | (set(inv["groups"]) - set(S.ALL_GROUPS)) | (set(inv["data"]) - set(S.DATA_KINDS) - set(S.UNINSTANTIABLE))
@@ -1161,6 +1349,8 @@ def oracle(case, obs):
 def nontrivial(case, obs):
     if case.get("inventory"):
         return False
+    if "dh" in case:
+        return True
     s = case["src"]
     return bool(s.get("children") or s.get("data") or case["opts"]["mask"] or case.get("prefill") or case.get("edits"))
 
@@ -1168,8 +1358,13 @@ def nontrivial(case, obs):
 def histogram(cases, obs):
     h = {"root_class": {}, "target": {}, "mask": 0, "no_children": 0, "omit_meta": 0, "rename": 0, "prefill": 0, "edits": {}, "outcome": {},
          "alias_paths": 0, "max_depth": {}}
+    h["drillhole_group_cases"] = {}
     for c, o in zip(cases, obs):
         if c.get("inventory"):
+            continue
+        if "dh" in c:
+            kk = c["dh"]["target"] + ":" + c["dh"]["edit"]
+            h["drillhole_group_cases"][kk] = h["drillhole_group_cases"].get(kk, 0) + 1
             continue
         cls = c["src"]["cls"] if "pick" not in c["src"] else c["src"]["data"][c["src"]["pick"]]["kind"]
         h["root_class"][cls] = h["root_class"].get(cls, 0) + 1
